@@ -305,7 +305,7 @@ func init() {
 			"distinct_nontrivial = distinct (handler, gRPC answer class) pairs observed",
 		Assumptions: []string{"requests reach the handlers as Go messages decoded from wire bytes (no gRPC transport)", "the in-flight request of a batch is written to work/C12/inflight-<case>.txt before each call, so a fatal runtime error still leaves the input"},
 		DistinctSet: "answer", CaseTimeout: 600e9,
-		Floors:      map[string]int64{"requests": 5000, "set_requests_accepted": 50, "requests_wire_mutated": 500},
+		Floors: map[string]int64{"requests": 5000, "set_requests_accepted": 50, "requests_wire_mutated": 500},
 		Cases: func(tier string) int {
 			if tier == "thorough" {
 				return 5000
